@@ -442,6 +442,21 @@ pub fn generate(rng: &mut Rng, cfg: &Config) -> Program {
         features.push(format!("kind:{}", kind.split('<').next().unwrap_or(kind)));
         resources.push(Res { name, kind, array });
     }
+    // a static (non-extern) global of a resource type, initialised from a bound resource: still an object typed global for the
+    // binding pass and for every target's reflection
+    if rng.chance(1, 6) {
+        let candidates: Vec<usize> = (0..resources.len())
+            .filter(|i| resources[*i].array.is_none() && (resources[*i].kind.starts_with("Texture2D") || resources[*i].kind.starts_with("Buffer<") || resources[*i].kind.starts_with("StructuredBuffer<")))
+            .collect();
+        if !candidates.is_empty() {
+            let r = candidates[rng.below(candidates.len())];
+            let (kind, src) = (resources[r].kind, resources[r].name.clone());
+            let name = format!("s_alias{}", r);
+            text.push_str(&format!("static {} {} = {};\n", kind, name, src));
+            features.push("static-resource-alias".into());
+            resources.push(Res { name, kind, array: None });
+        }
+    }
     if static_sampler_error_pending {
         text.push_str("SamplerState g_broken_sampler = StaticSampler\n{\n    Filter = MIN_MAG_MIP_LINEAR;\n    Sharpness = 3;\n};\n");
     }
